@@ -1,13 +1,19 @@
-//! Rust re-implementations of the std functions used by indextree, to be dumped as MIR.
+//! Rust re-implementations ("shims") of the core/std functions used by indextree - and a generous superset, so that
+//! realistic edits of the crate stay inside what mirsym can execute. The crate is never linked into anything: its MIR is
+//! dumped and interpreted exactly like the MIR of indextree. `cargo test` compares every shim with the real std function.
 #![allow(clippy::all)]
+#![allow(dead_code)]
 use core::convert::Infallible;
 use core::ops::ControlFlow;
 
+// ---------------------------------------------------------------- Option
 pub fn option_is_some<T>(o: &Option<T>) -> bool { match o { Some(_) => true, None => false } }
 pub fn option_is_none<T>(o: &Option<T>) -> bool { match o { Some(_) => false, None => true } }
 pub fn option_is_some_and<T, F: FnOnce(T) -> bool>(o: Option<T>, f: F) -> bool { match o { Some(x) => f(x), None => false } }
+pub fn option_is_none_or<T, F: FnOnce(T) -> bool>(o: Option<T>, f: F) -> bool { match o { Some(x) => f(x), None => true } }
 pub fn option_map<T, U, F: FnOnce(T) -> U>(o: Option<T>, f: F) -> Option<U> { match o { Some(x) => Some(f(x)), None => None } }
 pub fn option_map_or<T, U, F: FnOnce(T) -> U>(o: Option<T>, d: U, f: F) -> U { match o { Some(x) => f(x), None => d } }
+pub fn option_map_or_else<T, U, D: FnOnce() -> U, F: FnOnce(T) -> U>(o: Option<T>, d: D, f: F) -> U { match o { Some(x) => f(x), None => d() } }
 pub fn option_or<T>(o: Option<T>, b: Option<T>) -> Option<T> { match o { Some(x) => Some(x), None => b } }
 pub fn option_and<T, U>(o: Option<T>, b: Option<U>) -> Option<U> { match o { Some(_) => b, None => None } }
 pub fn option_xor<T>(o: Option<T>, b: Option<T>) -> Option<T> { match (o, b) { (Some(a), None) => Some(a), (None, Some(b)) => Some(b), _ => None } }
@@ -15,27 +21,68 @@ pub fn option_or_else<T, F: FnOnce() -> Option<T>>(o: Option<T>, f: F) -> Option
 pub fn option_and_then<T, U, F: FnOnce(T) -> Option<U>>(o: Option<T>, f: F) -> Option<U> { match o { Some(x) => f(x), None => None } }
 pub fn option_filter<T, F: FnOnce(&T) -> bool>(o: Option<T>, f: F) -> Option<T> { if let Some(x) = o { if f(&x) { return Some(x); } } None }
 pub fn option_take<T>(o: &mut Option<T>) -> Option<T> { core::mem::replace(o, None) }
+pub fn option_replace<T>(o: &mut Option<T>, v: T) -> Option<T> { core::mem::replace(o, Some(v)) }
+pub fn option_insert<T>(o: &mut Option<T>, v: T) -> &mut T { *o = Some(v); match o { Some(x) => x, None => panic!("unreachable") } }
+pub fn option_get_or_insert<T>(o: &mut Option<T>, v: T) -> &mut T { if let None = o { *o = Some(v); } match o { Some(x) => x, None => panic!("unreachable") } }
 pub fn option_unwrap<T>(o: Option<T>) -> T { match o { Some(x) => x, None => panic!("called `Option::unwrap()` on a `None` value") } }
 pub fn option_expect<T>(o: Option<T>, _msg: &str) -> T { match o { Some(x) => x, None => panic!("Option::expect failed") } }
 pub fn option_unwrap_or<T>(o: Option<T>, d: T) -> T { match o { Some(x) => x, None => d } }
+pub fn option_unwrap_or_else<T, F: FnOnce() -> T>(o: Option<T>, f: F) -> T { match o { Some(x) => x, None => f() } }
+pub fn option_unwrap_or_default<T: Default>(o: Option<T>) -> T { match o { Some(x) => x, None => T::default() } }
+pub fn option_ok_or<T, E>(o: Option<T>, e: E) -> Result<T, E> { match o { Some(x) => Ok(x), None => Err(e) } }
+pub fn option_ok_or_else<T, E, F: FnOnce() -> E>(o: Option<T>, f: F) -> Result<T, E> { match o { Some(x) => Ok(x), None => Err(f()) } }
+pub fn option_zip<T, U>(o: Option<T>, b: Option<U>) -> Option<(T, U)> { match (o, b) { (Some(a), Some(b)) => Some((a, b)), _ => None } }
+pub fn option_as_ref<T>(o: &Option<T>) -> Option<&T> { match o { Some(x) => Some(x), None => None } }
+pub fn option_as_mut<T>(o: &mut Option<T>) -> Option<&mut T> { match o { Some(x) => Some(x), None => None } }
+pub fn option_copied<T: Copy>(o: Option<&T>) -> Option<T> { match o { Some(x) => Some(*x), None => None } }
+pub fn option_cloned<T: Clone>(o: Option<&T>) -> Option<T> { match o { Some(x) => Some(x.clone()), None => None } }
 pub fn option_eq<T: PartialEq>(a: &Option<T>, b: &Option<T>) -> bool { match (a, b) { (Some(x), Some(y)) => x == y, (None, None) => true, _ => false } }
+pub fn option_ne<T: PartialEq>(a: &Option<T>, b: &Option<T>) -> bool { !option_eq(a, b) }
 pub fn option_clone<T: Clone>(a: &Option<T>) -> Option<T> { match a { Some(x) => Some(x.clone()), None => None } }
+pub fn option_default<T>() -> Option<T> { None }
 pub fn option_branch<T>(o: Option<T>) -> ControlFlow<Option<Infallible>, T> { match o { Some(x) => ControlFlow::Continue(x), None => ControlFlow::Break(None) } }
 pub fn option_from_residual<T>(_r: Option<Infallible>) -> Option<T> { None }
+pub fn option_from_output<T>(x: T) -> Option<T> { Some(x) }
+pub fn option_into_iter<T>(o: Option<T>) -> OptionIter<T> { OptionIter { o } }
+pub struct OptionIter<T> { o: Option<T> }
+impl<T> Iterator for OptionIter<T> { type Item = T; fn next(&mut self) -> Option<T> { core::mem::replace(&mut self.o, None) } }
 
+// ---------------------------------------------------------------- Result
 pub fn result_expect<T, E>(r: Result<T, E>, _msg: &str) -> T { match r { Ok(x) => x, Err(_) => panic!("Result::expect failed") } }
 pub fn result_unwrap<T, E>(r: Result<T, E>) -> T { match r { Ok(x) => x, Err(_) => panic!("Result::unwrap failed") } }
+pub fn result_expect_err<T, E>(r: Result<T, E>, _msg: &str) -> E { match r { Err(e) => e, Ok(_) => panic!("Result::expect_err failed") } }
+pub fn result_unwrap_err<T, E>(r: Result<T, E>) -> E { match r { Err(e) => e, Ok(_) => panic!("Result::unwrap_err failed") } }
+pub fn result_unwrap_or<T, E>(r: Result<T, E>, d: T) -> T { match r { Ok(x) => x, Err(_) => d } }
+pub fn result_unwrap_or_else<T, E, F: FnOnce(E) -> T>(r: Result<T, E>, f: F) -> T { match r { Ok(x) => x, Err(e) => f(e) } }
 pub fn result_is_ok<T, E>(r: &Result<T, E>) -> bool { match r { Ok(_) => true, Err(_) => false } }
 pub fn result_is_err<T, E>(r: &Result<T, E>) -> bool { match r { Ok(_) => false, Err(_) => true } }
+pub fn result_ok<T, E>(r: Result<T, E>) -> Option<T> { match r { Ok(x) => Some(x), Err(_) => None } }
+pub fn result_err<T, E>(r: Result<T, E>) -> Option<E> { match r { Ok(_) => None, Err(e) => Some(e) } }
+pub fn result_map<T, U, E, F: FnOnce(T) -> U>(r: Result<T, E>, f: F) -> Result<U, E> { match r { Ok(x) => Ok(f(x)), Err(e) => Err(e) } }
+pub fn result_map_err<T, E, G, F: FnOnce(E) -> G>(r: Result<T, E>, f: F) -> Result<T, G> { match r { Ok(x) => Ok(x), Err(e) => Err(f(e)) } }
+pub fn result_and_then<T, U, E, F: FnOnce(T) -> Result<U, E>>(r: Result<T, E>, f: F) -> Result<U, E> { match r { Ok(x) => f(x), Err(e) => Err(e) } }
+pub fn result_or_else<T, E, G, F: FnOnce(E) -> Result<T, G>>(r: Result<T, E>, f: F) -> Result<T, G> { match r { Ok(x) => Ok(x), Err(e) => f(e) } }
 pub fn result_branch<T, E>(r: Result<T, E>) -> ControlFlow<Result<Infallible, E>, T> { match r { Ok(x) => ControlFlow::Continue(x), Err(e) => ControlFlow::Break(Err(e)) } }
 pub fn result_from_residual<T, E>(r: Result<Infallible, E>) -> Result<T, E> { match r { Err(e) => Err(e), Ok(x) => match x {} } }
+pub fn result_from_output<T, E>(x: T) -> Result<T, E> { Ok(x) }
 
+// ---------------------------------------------------------------- Iterator consumers (take the iterator by &mut)
 pub fn iter_any<I: Iterator, F: FnMut(I::Item) -> bool>(it: &mut I, mut f: F) -> bool { while let Some(x) = it.next() { if f(x) { return true; } } false }
 pub fn iter_all<I: Iterator, F: FnMut(I::Item) -> bool>(it: &mut I, mut f: F) -> bool { while let Some(x) = it.next() { if !f(x) { return false; } } true }
 pub fn iter_find<I: Iterator, P: FnMut(&I::Item) -> bool>(it: &mut I, mut p: P) -> Option<I::Item> { while let Some(x) = it.next() { if p(&x) { return Some(x); } } None }
 pub fn iter_find_map<I: Iterator, B, F: FnMut(I::Item) -> Option<B>>(it: &mut I, mut f: F) -> Option<B> { while let Some(x) = it.next() { if let Some(b) = f(x) { return Some(b); } } None }
+pub fn iter_position<I: Iterator, P: FnMut(I::Item) -> bool>(it: &mut I, mut p: P) -> Option<usize> { let mut i = 0; while let Some(x) = it.next() { if p(x) { return Some(i); } i += 1; } None }
+pub fn iter_nth<I: Iterator>(it: &mut I, mut n: usize) -> Option<I::Item> { while let Some(x) = it.next() { if n == 0 { return Some(x); } n -= 1; } None }
+// consumers taking the iterator by value
 pub fn iter_count<I: Iterator>(mut it: I) -> usize { let mut n = 0; while let Some(_) = it.next() { n += 1; } n }
+pub fn iter_last<I: Iterator>(mut it: I) -> Option<I::Item> { let mut l = None; while let Some(x) = it.next() { l = Some(x); } l }
+pub fn iter_fold<I: Iterator, B, F: FnMut(B, I::Item) -> B>(mut it: I, init: B, mut f: F) -> B { let mut acc = init; while let Some(x) = it.next() { acc = f(acc, x); } acc }
+pub fn iter_for_each<I: Iterator, F: FnMut(I::Item)>(mut it: I, mut f: F) { while let Some(x) = it.next() { f(x); } }
+pub fn iter_into_iter<I: Iterator>(it: I) -> I { it }
+pub fn iter_by_ref<I: Iterator>(it: &mut I) -> &mut I { it }
+pub fn iter_next_via_mut<I: Iterator>(it: &mut &mut I) -> Option<I::Item> { (**it).next() }
 
+// ---------------------------------------------------------------- Iterator adaptors
 pub struct Skip<I> { iter: I, n: usize }
 pub fn iter_skip<I: Iterator>(it: I, n: usize) -> Skip<I> { Skip { iter: it, n } }
 impl<I: Iterator> Iterator for Skip<I> {
@@ -45,18 +92,20 @@ impl<I: Iterator> Iterator for Skip<I> {
         self.iter.next()
     }
 }
-
-pub fn i16_is_negative(x: i16) -> bool { x < 0 }
-pub fn usize_wrapping_add(a: usize, b: usize) -> usize { let (r, _) = a.overflowing_add(b); r }
-pub fn usize_checked_sub(a: usize, b: usize) -> Option<usize> { if a >= b { Some(a - b) } else { None } }
-pub fn mem_replace<T>(dest: &mut T, src: T) -> T { core::mem::replace(dest, src) }
-
-// ---- adaptors needed by the pretty printer
+pub struct Take<I> { iter: I, n: usize }
+pub fn iter_take<I: Iterator>(it: I, n: usize) -> Take<I> { Take { iter: it, n } }
+impl<I: Iterator> Iterator for Take<I> {
+    type Item = I::Item;
+    fn next(&mut self) -> Option<I::Item> { if self.n == 0 { None } else { self.n -= 1; self.iter.next() } }
+}
 pub struct Rev<I> { iter: I }
 pub fn iter_rev<I: DoubleEndedIterator>(it: I) -> Rev<I> { Rev { iter: it } }
 impl<I: DoubleEndedIterator> Iterator for Rev<I> {
     type Item = I::Item;
     fn next(&mut self) -> Option<I::Item> { self.iter.next_back() }
+}
+impl<I: DoubleEndedIterator> DoubleEndedIterator for Rev<I> {
+    fn next_back(&mut self) -> Option<I::Item> { self.iter.next() }
 }
 pub struct TakeWhile<I, P> { iter: I, flag: bool, pred: P }
 pub fn iter_take_while<I: Iterator, P: FnMut(&I::Item) -> bool>(it: I, p: P) -> TakeWhile<I, P> { TakeWhile { iter: it, flag: false, pred: p } }
@@ -70,12 +119,135 @@ impl<I: Iterator, P: FnMut(&I::Item) -> bool> Iterator for TakeWhile<I, P> {
         }
     }
 }
+pub struct SkipWhile<I, P> { iter: I, done: bool, pred: P }
+pub fn iter_skip_while<I: Iterator, P: FnMut(&I::Item) -> bool>(it: I, p: P) -> SkipWhile<I, P> { SkipWhile { iter: it, done: false, pred: p } }
+impl<I: Iterator, P: FnMut(&I::Item) -> bool> Iterator for SkipWhile<I, P> {
+    type Item = I::Item;
+    fn next(&mut self) -> Option<I::Item> {
+        loop {
+            match self.iter.next() {
+                Some(x) => { if self.done || !(self.pred)(&x) { self.done = true; return Some(x); } }
+                None => return None,
+            }
+        }
+    }
+}
+pub struct Map<I, F> { iter: I, f: F }
+pub fn iter_map<I: Iterator, B, F: FnMut(I::Item) -> B>(it: I, f: F) -> Map<I, F> { Map { iter: it, f } }
+impl<I: Iterator, B, F: FnMut(I::Item) -> B> Iterator for Map<I, F> {
+    type Item = B;
+    fn next(&mut self) -> Option<B> { match self.iter.next() { Some(x) => Some((self.f)(x)), None => None } }
+}
+pub struct Filter<I, P> { iter: I, pred: P }
+pub fn iter_filter<I: Iterator, P: FnMut(&I::Item) -> bool>(it: I, p: P) -> Filter<I, P> { Filter { iter: it, pred: p } }
+impl<I: Iterator, P: FnMut(&I::Item) -> bool> Iterator for Filter<I, P> {
+    type Item = I::Item;
+    fn next(&mut self) -> Option<I::Item> { while let Some(x) = self.iter.next() { if (self.pred)(&x) { return Some(x); } } None }
+}
+pub struct FilterMap<I, F> { iter: I, f: F }
+pub fn iter_filter_map<I: Iterator, B, F: FnMut(I::Item) -> Option<B>>(it: I, f: F) -> FilterMap<I, F> { FilterMap { iter: it, f } }
+impl<I: Iterator, B, F: FnMut(I::Item) -> Option<B>> Iterator for FilterMap<I, F> {
+    type Item = B;
+    fn next(&mut self) -> Option<B> { while let Some(x) = self.iter.next() { if let Some(b) = (self.f)(x) { return Some(b); } } None }
+}
+pub struct Enumerate<I> { iter: I, count: usize }
+pub fn iter_enumerate<I: Iterator>(it: I) -> Enumerate<I> { Enumerate { iter: it, count: 0 } }
+impl<I: Iterator> Iterator for Enumerate<I> {
+    type Item = (usize, I::Item);
+    fn next(&mut self) -> Option<(usize, I::Item)> { match self.iter.next() { Some(x) => { let i = self.count; self.count += 1; Some((i, x)) } None => None } }
+}
+pub struct Chain<A, B> { a: Option<A>, b: B }
+pub fn iter_chain<A: Iterator, B: Iterator<Item = A::Item>>(a: A, b: B) -> Chain<A, B> { Chain { a: Some(a), b } }
+impl<A: Iterator, B: Iterator<Item = A::Item>> Iterator for Chain<A, B> {
+    type Item = A::Item;
+    fn next(&mut self) -> Option<A::Item> {
+        if let Some(a) = &mut self.a { match a.next() { Some(x) => return Some(x), None => { self.a = None; } } }
+        self.b.next()
+    }
+}
+pub struct Peekable<I: Iterator> { iter: I, peeked: Option<Option<I::Item>> }
+pub fn iter_peekable<I: Iterator>(it: I) -> Peekable<I> { Peekable { iter: it, peeked: None } }
+impl<I: Iterator> Iterator for Peekable<I> {
+    type Item = I::Item;
+    fn next(&mut self) -> Option<I::Item> { match core::mem::replace(&mut self.peeked, None) { Some(v) => v, None => self.iter.next() } }
+}
+pub fn peekable_peek<I: Iterator>(p: &mut Peekable<I>) -> Option<&I::Item> {
+    if let None = p.peeked { let v = p.iter.next(); p.peeked = Some(v); }
+    match &p.peeked { Some(Some(x)) => Some(x), _ => None }
+}
+pub struct Successors<T, F> { next: Option<T>, succ: F }
+pub fn iter_successors<T, F: FnMut(&T) -> Option<T>>(first: Option<T>, succ: F) -> Successors<T, F> { Successors { next: first, succ } }
+impl<T, F: FnMut(&T) -> Option<T>> Iterator for Successors<T, F> {
+    type Item = T;
+    fn next(&mut self) -> Option<T> { let item = core::mem::replace(&mut self.next, None)?; self.next = (self.succ)(&item); Some(item) }
+}
+pub struct FromFn<F> { f: F }
+pub fn iter_from_fn<T, F: FnMut() -> Option<T>>(f: F) -> FromFn<F> { FromFn { f } }
+impl<T, F: FnMut() -> Option<T>> Iterator for FromFn<F> { type Item = T; fn next(&mut self) -> Option<T> { (self.f)() } }
+
 pub fn range_next(r: &mut core::ops::Range<usize>) -> Option<usize> {
     if r.start < r.end { let v = r.start; r.start = v + 1; Some(v) } else { None }
 }
+pub fn range_next_back(r: &mut core::ops::Range<usize>) -> Option<usize> {
+    if r.start < r.end { r.end -= 1; Some(r.end) } else { None }
+}
+pub fn range_contains(r: &core::ops::Range<usize>, x: &usize) -> bool { r.start <= *x && *x < r.end }
+
+// ---------------------------------------------------------------- integers
+pub fn i16_is_negative(x: i16) -> bool { x < 0 }
+pub fn i16_is_positive(x: i16) -> bool { x > 0 }
+pub fn i16_abs(x: i16) -> i16 { if x < 0 { -x } else { x } }
+pub fn i16_wrapping_neg(x: i16) -> i16 { 0i16.wrapping_sub(x) }
+pub fn i16_wrapping_abs(x: i16) -> i16 { if x < 0 { 0i16.wrapping_sub(x) } else { x } }
+pub fn i16_checked_neg(x: i16) -> Option<i16> { if x == i16::MIN { None } else { Some(-x) } }
+pub fn i16_checked_add(a: i16, b: i16) -> Option<i16> { let (r, o) = a.overflowing_add(b); if o { None } else { Some(r) } }
+pub fn i16_checked_sub(a: i16, b: i16) -> Option<i16> { let (r, o) = a.overflowing_sub(b); if o { None } else { Some(r) } }
+pub fn i16_saturating_add(a: i16, b: i16) -> i16 { let (r, o) = a.overflowing_add(b); if o { if b < 0 { i16::MIN } else { i16::MAX } } else { r } }
+pub fn i16_saturating_sub(a: i16, b: i16) -> i16 { let (r, o) = a.overflowing_sub(b); if o { if b > 0 { i16::MIN } else { i16::MAX } } else { r } }
+pub fn i16_saturating_neg(x: i16) -> i16 { if x == i16::MIN { i16::MAX } else { -x } }
+pub fn i16_signum(x: i16) -> i16 { if x < 0 { -1 } else if x > 0 { 1 } else { 0 } }
+pub fn i16_min(a: i16, b: i16) -> i16 { if b < a { b } else { a } }
+pub fn i16_max(a: i16, b: i16) -> i16 { if b >= a { b } else { a } }
+pub fn usize_checked_sub(a: usize, b: usize) -> Option<usize> { if a >= b { Some(a - b) } else { None } }
+pub fn usize_checked_add(a: usize, b: usize) -> Option<usize> { let (r, o) = a.overflowing_add(b); if o { None } else { Some(r) } }
+pub fn usize_saturating_sub(a: usize, b: usize) -> usize { if a >= b { a - b } else { 0 } }
+pub fn usize_saturating_add(a: usize, b: usize) -> usize { let (r, o) = a.overflowing_add(b); if o { usize::MAX } else { r } }
+pub fn usize_min(a: usize, b: usize) -> usize { if b < a { b } else { a } }
+pub fn usize_max(a: usize, b: usize) -> usize { if b >= a { b } else { a } }
+pub fn mem_replace<T>(dest: &mut T, src: T) -> T { core::mem::replace(dest, src) }
+pub fn partial_ne<T: PartialEq>(a: &T, b: &T) -> bool { !(a == b) }
+pub fn bool_then_some<T>(b: bool, v: T) -> Option<T> { if b { Some(v) } else { None } }
+pub fn bool_then<T, F: FnOnce() -> T>(b: bool, f: F) -> Option<T> { if b { Some(f()) } else { None } }
+
+// ---------------------------------------------------------------- Vec<T>: Clone / PartialEq through the element impls
+pub fn vec_clone<T: Clone>(v: &Vec<T>) -> Vec<T> {
+    let mut out = Vec::with_capacity(v.len());
+    let mut i = 0;
+    while i < v.len() { out.push(v[i].clone()); i += 1; }
+    out
+}
+pub fn vec_eq<T: PartialEq>(a: &Vec<T>, b: &Vec<T>) -> bool {
+    if a.len() != b.len() { return false; }
+    let mut i = 0;
+    while i < a.len() { if a[i] != b[i] { return false; } i += 1; }
+    true
+}
+
+// ---------------------------------------------------------------- fmt helper (pretty printer)
 pub fn write_chunks<W: core::fmt::Write>(w: &mut W, chunks: &[&str]) -> core::fmt::Result {
     let mut i = 0;
     while i < chunks.len() { w.write_str(chunks[i])?; i += 1; }
     Ok(())
 }
-pub fn partial_ne<T: PartialEq>(a: &T, b: &T) -> bool { !(a == b) }
+
+
+// ---------------------------------------------------------------- format-template probes
+// The compiled form of a format string is an opaque byte template in MIR. These functions exist only so that mirsym can
+// read the templates of the four payload modes from this crate's MIR dump and recognise them in the crate under test.
+pub fn fmt_tpl_display<T: core::fmt::Display>(f: &mut core::fmt::Formatter<'_>, x: &T) -> core::fmt::Result { write!(f, "{}", x) }
+pub fn fmt_tpl_display_alt<T: core::fmt::Display>(f: &mut core::fmt::Formatter<'_>, x: &T) -> core::fmt::Result { write!(f, "{:#}", x) }
+pub fn fmt_tpl_debug<T: core::fmt::Debug>(f: &mut core::fmt::Formatter<'_>, x: &T) -> core::fmt::Result { write!(f, "{:?}", x) }
+pub fn fmt_tpl_debug_alt<T: core::fmt::Debug>(f: &mut core::fmt::Formatter<'_>, x: &T) -> core::fmt::Result { write!(f, "{:#?}", x) }
+
+#[cfg(test)]
+mod tests;
